@@ -105,11 +105,16 @@ def materialise(base, mask: int, variant: str):
     frames: list[tuple[list[int], dict]] = []
     if variant == "empty":
         frames.append(([], {}))
+    if variant.startswith("hb"):
+        # "heartbeat" frames: no rows, only metadata; the leading one is 7+n bytes long
+        frames.append(([], {"k": b"x" * int(variant[2:])}))
     for k, idxs in enumerate(parts):
         meta = {"frame": bytes([k + 1]), "é": b""} if variant == "meta" else {}
         frames.append((idxs, meta))
         if variant == "empty":
             frames.append(([], {}))
+        if variant.startswith("hb"):
+            frames.append(([], {"k": b"y" * (k + int(variant[2:]))}))
     raw = [jwire.enc_frame([rows[i] for i in idxs], meta) for idxs, meta in frames]
     expect = [[e for i in idxs for e in base["per_row"][i]] for idxs, _ in frames]
     return jwire.write_delimited(raw), expect, [m for _, m in frames]
@@ -228,7 +233,9 @@ def read_shard(job) -> dict:
     acc = pool.Acc()
     n = len(base["rows"])
     for mask in range(1 << (n - 1)):
-        for variant in ("plain", "empty", "meta"):
+        # (heartbeat variants on the coarse partitions only: what they vary is the frame length)
+        hb = tuple(f"hb{n}" for n in range(7)) if mask in (0, 1, (1 << (n - 1)) - 1) else ()
+        for variant in ("plain", "empty", "meta") + hb:
             acc.evals += 1
             if mask:
                 acc.nontrivial += 1
@@ -291,10 +298,23 @@ def check_write(case: dict) -> list[tuple[str, str]]:
         inputs = [gl[i] for i in case["groups"]]
         opts = DR.make_options(cls, (8, 2, 0), 250, True, lt, generalized=False, rdf_star=False)
     out = io.BytesIO()
+    via = case.get("via")
+
+    def shared(ser, containers):
+        # one explicit stream object of the given class serves every container in turn
+        scls = via.split("-")[1]
+        o2 = DR.make_options(scls, (8, 2, 0), 250, True, lt, generalized=False, rdf_star=False)
+        stream = DR.g_stream(scls, o2) if api == "generic" else DR.r_stream(scls, o2)
+        for c in containers:
+            out.write(DR.frames_to_bytes(ser.stream_frames(stream, c), True))
+
     if api == "generic":
         from pyjelly.integrations.generic import serialize as ser  # noqa: PLC0415
 
-        ser.grouped_stream_to_file((DR.g_sink(g) for g in inputs), out, options=opts)
+        if via:
+            shared(ser, [DR.g_sink(g) for g in inputs if g])
+        else:
+            ser.grouped_stream_to_file((DR.g_sink(g) for g in inputs), out, options=opts)
     else:
         from pyjelly.integrations.rdflib import serialize as ser  # noqa: PLC0415
 
@@ -309,7 +329,10 @@ def check_write(case: dict) -> list[tuple[str, str]]:
                 ds.add((s, p, o, ds.get_context(gn)))
             return ds
 
-        ser.grouped_stream_to_file((mk(g) for g in inputs), out, options=opts)
+        if via:
+            shared(ser, [mk(g) for g in inputs if g])
+        else:
+            ser.grouped_stream_to_file((mk(g) for g in inputs), out, options=opts)
     data = out.getvalue()
     nonempty = [T.norm_seq(g) for g in inputs if g]
     if not data:
@@ -350,6 +373,17 @@ def write_shard(job) -> dict:
             fails = [("raised", f"grouped serialisation raised {type(e).__name__}: {e}")]
         for kind, msg in fails:
             acc.violation({"side": "write", "fail": kind, "api": api}, f"{msg} case={case}", case)
+        if len(sym) <= 2 and any(sym):
+            for via in (("shared-triple",) if arity == 3 else ("shared-quad", "shared-graph")):
+                c2 = {**case, "via": via}
+                acc.evals += 1
+                try:
+                    fails = check_write(c2)
+                except Exception as e:  # noqa: BLE001
+                    fails = [("raised", f"{via}: serialisation raised {type(e).__name__}: {e}")]
+                for kind, msg in fails:
+                    acc.violation({"side": "write", "fail": kind, "api": api, "via": via},
+                                  f"{msg} case={c2}", c2)
     if lo == 0:
         subs = ("subtype-13",) if arity == 3 else ("subtype-14", "subtype-114")
         for how in ("explicit-flow", "logical-type", *subs):
